@@ -21,6 +21,7 @@ VERIF = os.path.dirname(HERE)
 sys.path.insert(0, HERE)
 
 import verus_run
+import scan as scanmod
 from verus_run import verify_unit, load_ledger
 import props as P
 
@@ -273,6 +274,22 @@ def run_check(pid, pc, tier, seed, repo, work, t0, replay):
         undecided.extend(kres['undecided'])
         fn_samples.extend(kres['samples'])
 
+    # syntactic scans (checked frame conditions, reported as such)
+    scan_info = {}
+    for sc in pc.get('scans', []):
+        if sc == 'determinism':
+            nfiles, hits = scanmod.scan_determinism(repo)
+        else:
+            nfiles, hits = scanmod.scan_unsafe(repo)
+        obligations += nfiles
+        scan_info[sc] = {'files': nfiles, 'hits': hits, 'kind': 'syntactic scan, not a proof'}
+        if hits:
+            discharged += max(0, nfiles - len(set(h.split(':')[0] for h in hits)))
+            violations.append(('scan-' + sc, 'scan', ['%s scan: %s' % (sc, h) for h in hits], hits, {'cex': hits}))
+        else:
+            discharged += nfiles
+        cmds.append('vx/scan.py %s over %d files of %s' % (sc, nfiles, repo))
+
     # known findings
     known = P.load_known_findings()
     reported = []
@@ -331,6 +348,7 @@ def run_check(pid, pc, tier, seed, repo, work, t0, replay):
             'source_sha256': src_hashes,
             'canary': canary_info,
             'kani': kani_info,
+            'scans': scan_info,
             'undecided': undecided,
             'explanation': pc.get('explanation', ''),
         },
